@@ -194,6 +194,23 @@ def run_case(case, ctx):
             if ok_shape:
                 ctx.check("ft-roundtrip", float(numpy.max(numpy.abs(d2 - y))), 64 * EPS * nterms * ymax + 1e-300, det)
             axes_equal(ctx, "ft-roundtrip-axis", t, f2.axis, det)
+            # the same pair of transforms made while an energy-units context is active: same transform, same round trip
+            unit = ["1/cm", "eV", "THz", "meV"][(N + len(kind)) % 4]
+            with ctx.lib("transform pair inside energy_units(%s)" % unit):
+                with qr.energy_units(unit):
+                    Fu = f.get_Fourier_transform()
+                    fu2 = Fu.get_inverse_Fourier_transform()
+                    fu3 = F.get_inverse_Fourier_transform()
+                Fud, du2, du3 = numpy.array(Fu.data), numpy.array(fu2.data), numpy.array(fu3.data)
+            detu = dict(det, units_context=unit)
+            if Fud.shape == Fd.shape and du2.shape == y.shape and du3.shape == y.shape:
+                ctx.check("ft==direct-sum", float(numpy.max(numpy.abs(Fud - Fd))), 64 * EPS * nterms * float(numpy.max(numpy.abs(Fd))) + 1e-300,
+                          dict(detu, what="transform made inside the context vs outside"))
+                ctx.check("ft-roundtrip", float(numpy.max(numpy.abs(du2 - y))), 64 * EPS * nterms * ymax + 1e-300, dict(detu, what="both transforms inside the context"))
+                ctx.check("ft-roundtrip", float(numpy.max(numpy.abs(du3 - y))), 64 * EPS * nterms * ymax + 1e-300, dict(detu, what="inverse (inside the context) of a transform made outside"))
+            else:
+                ctx.require("ft-roundtrip", False, dict(detu, what="shape"))
+            axes_equal(ctx, "ft-roundtrip-axis", t, fu2.axis, detu)
             nz = int(numpy.count_nonzero(y))
             ctx.sub(("ft", N, atype, kind), nontrivial=(N >= 3 and (nz >= 2 or kind == "delta")))
 
@@ -233,4 +250,16 @@ def run_case(case, ctx):
         G2 = g.get_Fourier_transform()
     ctx.check("ft-roundtrip", float(numpy.max(numpy.abs(numpy.array(G2.data) - Y))), 64 * EPS * N * ymax, det)
     axes_equal(ctx, "ft-roundtrip-axis", w, G2.axis, det)
+    from qrv.oracles import units as UU
+    unit = ["eV", "THz", "1/cm"][N % 3]
+    with ctx.lib("frequency-first transforms inside energy_units(%s)" % unit):
+        with qr.energy_units(unit):
+            wu = qr.FrequencyAxis(-(N // 2) * dw / UU.E_FAC[unit], N, dw / UU.E_FAC[unit], atype="complete")
+            Gu = qr.DFunction(wu, Y.copy())
+            gu = Gu.get_inverse_Fourier_transform()
+            Gu2 = gu.get_Fourier_transform()
+        gud, Gu2d = numpy.array(gu.data), numpy.array(Gu2.data)
+    detu = dict(det, units_context=unit)
+    ctx.check("ift==direct-sum", float(numpy.max(numpy.abs(gud - ref))), ft_bound(N, Y, dw) / (2 * numpy.pi) + 1e-9 * float(numpy.max(numpy.abs(ref))), dict(detu, what="same function defined and transformed inside the context"))
+    ctx.check("ft-roundtrip", float(numpy.max(numpy.abs(Gu2d - Y))), 64 * EPS * N * ymax + 1e-9 * ymax, dict(detu, what="frequency-first round trip inside the context"))
     ctx.sub(("ift", N, "complete"), nontrivial=N >= 3)
